@@ -254,7 +254,9 @@ func (g *genCtx) genStmt(t *Table, own func(i int) bool, explicit bool) Stmt {
 		n := 1
 		params := r.Chance(1, 2)
 		if r.Chance(1, 3) {
-			n, params = 2+r.Intn(2), false // multi-row with bound key parameters is the listed region insert.multirow.params
+			// multi-row: literals only (bound key parameters are the region insert.multirow.params) and explicit keys
+			// (a multi-row INSERT that leaves the auto-increment key out panics in the insert executor: phase one, C18's subject)
+			n, params, withKey = 2+r.Intn(2), false, true
 		}
 		for i := 0; i < n; i++ {
 			s.Rows = append(s.Rows, newRow(withKey))
